@@ -555,6 +555,32 @@ def fault_rules(ck, owners, fm, rule="F", fns=None):
                             rec.finding(rule + "3", "%s:destroyed-elements-still-counted-%s[%s]" % (fn.replace("w_", ""), arg, ck.catkey()),
                                         "%s: on the unwind path (%s) the elements of %s were destroyed (%r at %s) but size() is unchanged: they would be destroyed again" % (
                                             fn, show_cond(xguard)[:160], arg, dt[0], tu.where(sm, dt[0])), config=tu.cfg)
+                # FE3 (ContiguousElement: no size() that could stop counting them): nothing the operand owns is destroyed before
+                # the fault - its block pointer and field pointers still designate those objects, the destructor or the next
+                # assignment would destroy them again
+                if fm.size is None and pre is not None:
+                    widx = tu.argidx(fn, arg)
+                    it = sm.interp
+                    dt = [d for d in sm.events if d.kind == "DTOR" and d.seq < min(cut, ts) and fx.decide(simplify_cond(d.guard, fx)) is not False
+                          and _region_owner(it.region_of(d.args[0])) == widx]
+                    # ... unless the operand no longer designates them: its block pointer is null at this exit (the state of a
+                    # moved-from element, from which destruction and assignment are covered by E-rules of C12)
+                    if dt:
+                        nulled = True
+                        for o in owners:
+                            if o.kind != "data":
+                                continue
+                            pv = xmem.w.get((base + o.off, 8))
+                            pv = simplify(pv, fx) if isinstance(pv, Lin) else (atom(("mem", base + o.off, 8)) if pv is None else pv)
+                            if not (isinstance(pv, Lin) and pv.is_const() and pv.c == 0):
+                                nulled = False
+                        if nulled:
+                            dt = []
+                    rec.ob(rule + "3", not dt, {"config": tu.cfg, "witness": fn, "obligation": "no object of %s is destroyed before an allocation that may fail, or %s holds no block afterwards" % (arg, arg)})
+                    if dt:
+                        rec.finding(rule + "3", "%s:objects-of-%s-destroyed-before-fault[%s]" % (fn.replace("w_", ""), arg, ck.catkey()),
+                                    "%s: on the unwind path (%s) the objects of %s were already destroyed (%r at %s) while its storage and field pointers still designate them: they would be destroyed again" % (
+                                        fn, show_cond(xguard)[:160], arg, dt[0], tu.where(sm, dt[0])), config=tu.cfg)
                 # F4: strong guarantee
                 strong = (fn == "w_reserve" and arg == "v") or (fn == "w_copy_ctor" and arg == "w") or (fn == "w_copy_assign" and arg == "w")
                 if strong:
